@@ -3,12 +3,24 @@
 (* Trace validation for C20 (harness/hx_dsp2/src/window.rs).  Components:  *)
 (*   window    the stand-alone Window iterator: `take` = its first n       *)
 (*             values and the phases read through the public `phase` field *)
-(*   windower  `size_hint` at any time; `next` = the first b frames of the *)
-(*             chunk, or none; `nth{k}` = Iterator::nth(k), `skip{k}` =    *)
-(*             by_ref().skip(k).next(), `step_by{s,m}` = the first m items *)
-(*             of by_ref().step_by(s).  The reset line carries the b       *)
-(*             window values observed from a stand-alone Window of the     *)
-(*             frame type's Float companion (wv).                          *)
+(*             (slot 0); then other instances in slots 1, 2 (`new`,        *)
+(*             `clone{w,to}`, `rewind` = the public phase field assigned   *)
+(*             from a fresh window) advanced by next / nth{k} /            *)
+(*             step_by{s,m} / takeby{m} (by_ref().take), and `size_hint`   *)
+(*   windower  up to three windower VALUES in slots a.w = 0..2 (0 = the    *)
+(*             one the reset line built; clone{w,to} fills another).       *)
+(*             `size_hint` at any time; `next` = the first b frames of the *)
+(*             chunk, or none; `nth{k}`, `skip{k}` = by_ref().skip(k)      *)
+(*             .next(), `find{k}` (predicate true at its k-th call),       *)
+(*             `step_by{s,m}` / `take{m}` = the first m items of           *)
+(*             by_ref().step_by(s) / by_ref().take(m), `position{k}`,      *)
+(*             `any{k}`, `all{k}`; consuming the value: `count`, `last`,   *)
+(*             `fold`, `for_each`; the public fields assigned: `set_bin`,  *)
+(*             `set_hop`, `set_frames{off,len}` (a sub-slice of the reset  *)
+(*             line's frames).  a.via = how a chunk's frames were read.    *)
+(*             The reset line (and every set_bin) carries the b window     *)
+(*             values observed from a stand-alone Window of the frame      *)
+(*             type's Float companion (wv).                                *)
 (*   winfn     `eval` = dasp_window::Window::window(p) of Hann / Rectangle *)
 (*             on f64 / f32 / i16 at the phase p (logged exactly; num/den  *)
 (*             = the rational it was derived from, a hint for k/24)        *)
@@ -16,14 +28,20 @@
 (*   window: phases i/(n-1); Rect = 1 exactly; Hann in [0,1], symmetric,   *)
 (*     0 at both ends, 1 at the centre (odd n), non-decreasing to the      *)
 (*     centre, and at (n-1) | 24 the algebraic special values -- all to    *)
-(*     1e-12 (binary64) / 2^-22 (binary32);                                *)
-(*   windower: next yields a chunk iff k*h + b <= L, so exactly Count      *)
-(*     chunks; chunk k frame i = mul_amp(frame[k*h + i], wv[i]) bit for    *)
+(*     1e-12 (binary64) / 2^-22 (binary32); whatever way an instance is    *)
+(*     advanced, its i-th value (i < n) is the i-th value of `take` to the *)
+(*     same tolerance; a size hint never promises fewer than n - i more;   *)
+(*   windower: each slot is a layer-1 value v = [base, len, b, h, k]:      *)
+(*     next yields a chunk iff k*h + b <= len, so exactly Count chunks;    *)
+(*     chunk k frame i = mul_amp(frame[base + k*h + i], wv[i]) bit for     *)
 (*     bit (SampleFormats.MulAmp); every size hint satisfies               *)
 (*     lo <= remaining <= hi.  A bad hint is reported and the execution    *)
-(*     goes on (size_hint does not change the state).  nth(j) / skip(j)    *)
-(*     yield chunk k+j iff it exists and consume min(k+j+1, Count);        *)
-(*     step_by(s) yields chunks k, k+s, ...;                               *)
+(*     goes on (size_hint does not change the state).  nth(j) / skip(j) /  *)
+(*     find yield chunk k+j iff it exists and consume min(k+j+1, Count);   *)
+(*     step_by(s) yields chunks k, k+s, ...; position / any / all answer   *)
+(*     whether chunk k+j exists; count = Count - k; last = chunk Count-1;  *)
+(*     fold / for_each = chunks k .. Count-1; a clone is the same value;   *)
+(*     an assignment re-bases the value (VSetBin / VSetHop / VSetFrames);  *)
 (*   winfn: Rect(p) = 1 exactly at EVERY phase (integer formats: full      *)
 (*     scale); Hann(p) in [0,1] and at p = k/24 the algebraic special      *)
 (*     value (Hann(0) = Hann(1) = 0, Hann(1/2) = 1) to 1e-12 (f64), 2^-20  *)
@@ -33,11 +51,15 @@ EXTENDS Window, SampleFormats, TLC, Json, IOUtils
 
 Rec == ndJsonDeserialize(IOEnv.TRACE)
 
-VARIABLES l, comp, cf, k, skip
-vars == << l, comp, cf, k, skip >>
+VARIABLES l, comp, cf, ws, skip
+vars == << l, comp, cf, ws, skip >>
 Ev == Rec[l]
 
-Cf0 == [kind |-> "none", fmt |-> "f64", ch |-> 1, L |-> 0, b |-> 2, h |-> 1, frames |-> << >>, wv |-> << >>, n |-> 0]
+Cf0 == [kind |-> "none", fmt |-> "f64", ch |-> 1, L |-> 0, frames |-> << >>, n |-> 0, ref |-> << >>]
+\* one slot: a windower value (Window.tla layer 1) + the window values of its bin;
+\* for the stand-alone window component: k = index of the next value
+Dead == [alive |-> FALSE, base |-> 0, len |-> 0, b |-> 2, h |-> 1, k |-> 0, wv |-> << >>]
+Ws0 == [i \in 0..2 |-> Dead]
 HeapOK == Ev.h = << 0, 0, 0 >>
 AbsLe(x, t) == DLe(DAbs(x), t)
 
@@ -70,48 +92,103 @@ AcceptResetWindow ==
   /\ Ev.cfg.kind \in {"hann", "rect"} /\ Ev.cfg.fmt \in {"f64", "f32"} /\ Ev.cfg.n >= 2
   /\ Ev.r.k = "unit" /\ Ev.o.ok
 AcceptTake ==
-  /\ Ev.a.n = cf.n /\ k = 0 /\ Ev.r.k = "items" /\ ~Ev.o.ended
+  /\ Ev.a.n = cf.n /\ ws[0].alive /\ ws[0].k = 0 /\ Ev.r.k = "items" /\ ~Ev.o.ended
   /\ WinOK(cf.kind, FmtOf(cf.fmt), cf.n, Ev.r.v, Ev.o.ph)
+
+\* other instances / other ways of advancing: value number i (0-based, i < n) is value i of `take`
+WSlot == Ev.a.w \in 0..2
+WLive == WSlot /\ ws[Ev.a.w].alive /\ Len(cf.ref) = cf.n
+WPos == ws[Ev.a.w].k
+WValOK(x) == IsFields(x) /\ FIsFinite(FmtOf(cf.fmt), x)
+WSame(i, x) == \* x is the i-th window value
+  i < cf.n => DLe(DMul(DAbs(DSub(Dec(FmtOf(cf.fmt), x), Dec(FmtOf(cf.fmt), cf.ref[i + 1]))), WTolScale(FmtOf(cf.fmt))), DOne)
+AcceptWNth(j) ==
+  /\ WLive /\ j >= 0 /\ Ev.r.k \in {"some", "none"} /\ WValOK(Ev.r.v)
+  /\ (WPos + j < cf.n => Ev.r.k = "some")
+  /\ (Ev.r.k = "some" => WSame(WPos + j, Ev.r.v))
+\* the first m items of by_ref().step_by(s): values WPos, WPos + s, ...
+AcceptWStep(s, m) ==
+  /\ WLive /\ s >= 1 /\ m >= 1 /\ Ev.r.k = "items" /\ Len(Ev.r.v) <= m
+  /\ \A i \in 1..m : WPos + (i - 1) * s < cf.n => i <= Len(Ev.r.v)
+  /\ \A i \in 1..Len(Ev.r.v) : WValOK(Ev.r.v[i]) /\ WSame(WPos + (i - 1) * s, Ev.r.v[i])
+\* a window of n frames yields at least n values: a hint must not promise fewer than are still to come
+AcceptWHint ==
+  /\ WLive /\ Ev.r.k = "val" /\ IsSJson(Ev.r.v.lo) /\ Ev.r.v.hi.k \in {"some", "none"}
+  /\ (Ev.r.v.hi.k = "some" => IsSJson(Ev.r.v.hi.v) /\ (WPos < cf.n => SLe(SFromInt(cf.n - WPos), SFromJson(Ev.r.v.hi.v))))
 
 ---------------------------------------------------------------------------
 (* windower *)
 FFmt(fmt) == FloatOf(fmt)
+WvOK(kind, ffmt, bb, wv) ==
+  /\ Len(wv) = bb
+  /\ \A i \in 1..bb : IsFields(wv[i]) /\ FIsFinite(FmtOf(ffmt), wv[i])
+  /\ (kind = "rect" => \A i \in 1..bb : DEq(Dec(FmtOf(ffmt), wv[i]), DOne))
 AcceptResetWindower ==
   LET c == Ev.cfg IN
   /\ c.kind \in {"hann", "rect"} /\ c.fmt \in {"f64", "f32", "i16"} /\ c.ch \in 1..2
   /\ c.b >= 2 /\ c.h >= 1 /\ c.L = Len(c.frames)                        \* domain of the property
   /\ Ev.r.k = "unit" /\ Ev.o.ok
-  /\ c.ffmt = FFmt(c.fmt) /\ Len(Ev.o.wv) = c.b
-  /\ \A i \in 1..c.b : IsFields(Ev.o.wv[i]) /\ FIsFinite(FmtOf(c.ffmt), Ev.o.wv[i])
-  /\ (c.kind = "rect" => \A i \in 1..c.b : DEq(Dec(FmtOf(c.ffmt), Ev.o.wv[i]), DOne))
+  /\ c.ffmt = FFmt(c.fmt) /\ WvOK(c.kind, c.ffmt, c.b, Ev.o.wv)
 
-Rem == Remaining(cf.L, cf.b, cf.h, k)
+\* the windower value an event addresses
+Slot == Ev.a.w \in 0..2
+Live == Slot /\ ws[Ev.a.w].alive
+S == ws[Ev.a.w]
+\* a.via = how the driver read the frames of a chunk: 0..3 the first b frames (next / by_ref().take(b) / nth(0) /
+\* half of them from a clone of the chunk), 4 every second one through nth(1) (positions 2, 4, ... counted from 1),
+\* 5 step_by(2) (positions 1, 3, ...), 6 skip(1) (positions 2 .. b).  Whatever the way, the frame at
+\* position p of chunk idx is frame idx*h + p scaled by the window value of position p.
+ViaOK == Ev.a.via \in 0..6
+ViaNum(bb) == CASE Ev.a.via = 4 -> bb \div 2 [] Ev.a.via = 5 -> (bb + 1) \div 2 [] Ev.a.via = 6 -> bb - 1 [] OTHER -> bb
+ViaPos(i) == CASE Ev.a.via = 4 -> 2 * i [] Ev.a.via = 5 -> 2 * i - 1 [] Ev.a.via = 6 -> i + 1 [] OTHER -> i
 AcceptHint ==
-  /\ Ev.r.k = "val" /\ IsSJson(Ev.r.v.lo) /\ Ev.r.v.hi.k \in {"some", "none"}
-  /\ SLe(SFromJson(Ev.r.v.lo), SFromInt(Rem))
-  /\ (Ev.r.v.hi.k = "some" => IsSJson(Ev.r.v.hi.v) /\ SLe(SFromInt(Rem), SFromJson(Ev.r.v.hi.v)))
+  /\ Live /\ Ev.r.k = "val" /\ IsSJson(Ev.r.v.lo) /\ Ev.r.v.hi.k \in {"some", "none"}
+  /\ SLe(SFromJson(Ev.r.v.lo), SFromInt(VRemaining(S)))
+  /\ (Ev.r.v.hi.k = "some" => IsSJson(Ev.r.v.hi.v) /\ SLe(SFromInt(VRemaining(S)), SFromJson(Ev.r.v.hi.v)))
 
 Samp(x) == SampleFromJson(cf.fmt, x)
-\* v = the first b frames of chunk number idx
-ChunkOK(v, idx) ==
-  /\ Len(v) = cf.b
-  /\ \A i \in 1..cf.b :
+\* v = the frames read (a.via) from the first b frames of chunk number idx of the value sl
+ChunkOK(sl, v, idx) ==
+  /\ Len(v) = ViaNum(sl.b)
+  /\ \A i \in 1..Len(v) :
        /\ Len(v[i]) = cf.ch
        /\ \A c \in 1..cf.ch :
-            LET src == Samp(cf.frames[ChunkOffset(idx, cf.h) + i][c]) IN
-            /\ MulAmpDefined(cf.fmt, src, cf.wv[i])
-            /\ SampleEq(cf.fmt, Samp(v[i][c]), MulAmp(cf.fmt, src, cf.wv[i]))
-\* nth(j): the j-th of the remaining chunks (next = nth(0), skip(j).next() = nth(j))
+            LET src == Samp(cf.frames[VChunkStart(sl, idx) + ViaPos(i)][c]) IN
+            /\ MulAmpDefined(cf.fmt, src, sl.wv[ViaPos(i)])
+            /\ SampleEq(cf.fmt, Samp(v[i][c]), MulAmp(cf.fmt, src, sl.wv[ViaPos(i)]))
+\* nth(j): the j-th of the remaining chunks (next = nth(0), skip(j).next() = nth(j), find with a predicate
+\* that first holds at its j-th call likewise)
 AcceptNthChunk(j) ==
-  /\ j >= 0
-  /\ IF NthHas(cf.L, cf.b, cf.h, k, j) THEN Ev.r.k = "some" /\ ChunkOK(Ev.r.v, k + j) ELSE Ev.r.k = "none"
-AcceptNextChunk == AcceptNthChunk(0)
+  /\ Live /\ ViaOK /\ j >= 0
+  /\ IF VNthHas(S, j) THEN Ev.r.k = "some" /\ ChunkOK(S, Ev.r.v, S.k + j) ELSE Ev.r.k = "none"
 \* the first m items of step_by(s): chunks k, k + s, k + 2s, ... while they exist
-AcceptStepBy ==
-  LET sp == Ev.a.s  m == Ev.a.m IN
-  /\ sp >= 1 /\ m >= 1 /\ Ev.r.k = "items"
-  /\ Len(Ev.r.v) = StepGot(cf.L, cf.b, cf.h, k, sp, m)
-  /\ \A i \in 1..Len(Ev.r.v) : ChunkOK(Ev.r.v[i], k + (i - 1) * sp)
+AcceptStepBy(sp, m) ==
+  /\ Live /\ ViaOK /\ sp >= 1 /\ m >= 1 /\ Ev.r.k = "items"
+  /\ Len(Ev.r.v) = VStepGot(S, sp, m)
+  /\ \A i \in 1..Len(Ev.r.v) : ChunkOK(S, Ev.r.v[i], S.k + (i - 1) * sp)
+\* position(p) / any(p) with p first true at call j; all(p) with p first false at call j
+AcceptPosition ==
+  /\ Live /\ Ev.a.k >= 0
+  /\ IF VNthHas(S, Ev.a.k) THEN Ev.r.k = "some" /\ Ev.r.v = Ev.a.k ELSE Ev.r.k = "none"
+AcceptAnyAll ==
+  /\ Live /\ Ev.a.k >= 0 /\ Ev.r.k = "val"
+  /\ Ev.r.v = IF Ev.ev = "any" THEN VNthHas(S, Ev.a.k) ELSE ~VNthHas(S, Ev.a.k)
+\* consuming the value
+AcceptCount ==
+  /\ Live /\ Ev.r.k = "val" /\ IsSJson(Ev.r.v)
+  /\ SLe(SFromJson(Ev.r.v), SFromInt(VRemaining(S))) /\ SLe(SFromInt(VRemaining(S)), SFromJson(Ev.r.v))
+AcceptLast ==
+  /\ Live /\ ViaOK
+  /\ IF VLastHas(S) THEN Ev.r.k = "some" /\ ChunkOK(S, Ev.r.v, VLastIdx(S)) ELSE Ev.r.k = "none"
+AcceptFold ==
+  /\ Live /\ ViaOK /\ Ev.r.k = "items" /\ Len(Ev.r.v) = VRemaining(S)
+  /\ \A i \in 1..Len(Ev.r.v) : ChunkOK(S, Ev.r.v[i], S.k + i - 1)
+\* a clone is the same value
+AcceptClone == Live /\ Ev.a.to \in 0..2 /\ Ev.a.to # Ev.a.w /\ Ev.r.k = "unit"
+\* the public fields assigned (inside the statement's domain b >= 2, h >= 1, a slice of the caller's frames)
+AcceptSetBin == Live /\ Ev.a.b >= 2 /\ Ev.r.k = "unit" /\ WvOK(cf.kind, FFmt(cf.fmt), Ev.a.b, Ev.o.wv)
+AcceptSetHop == Live /\ Ev.a.h >= 1 /\ Ev.r.k = "unit"
+AcceptSetFrames == Live /\ Ev.a.off >= 0 /\ Ev.a.len >= 0 /\ Ev.a.off + Ev.a.len <= cf.L /\ Ev.r.k = "unit"
 
 ---------------------------------------------------------------------------
 (* the window functions evaluated directly *)
@@ -136,55 +213,91 @@ AcceptEval ==
 Consume == l <= Len(Rec) /\ l' = l + 1
 Reject == PrintT(<< "REJECT", l, Ev.ev >>)
 HeapNote == IF Ev.r.k = "panic" \/ HeapOK THEN TRUE ELSE PrintT(<< "HEAP", l, Ev.ev >>)
-Bad == Reject /\ skip' = TRUE /\ UNCHANGED << comp, cf, k >>
+Bad == Reject /\ skip' = TRUE /\ UNCHANGED << comp, cf, ws >>
+Same == UNCHANGED << comp, cf, skip >>
+Put(s, x) == ws' = [ws EXCEPT ![s] = x]
+Kill(s) == ws' = [ws EXCEPT ![s] = Dead]
 
 TReset ==
-  /\ Consume /\ Ev.ev = "reset" /\ k' = 0
+  /\ Consume /\ Ev.ev = "reset"
   /\ IF Ev.comp = "window" /\ AcceptResetWindow
        THEN /\ comp' = "window" /\ skip' = FALSE
             /\ cf' = [Cf0 EXCEPT !.kind = Ev.cfg.kind, !.fmt = Ev.cfg.fmt, !.n = Ev.cfg.n]
+            /\ ws' = [Ws0 EXCEPT ![0] = [Dead EXCEPT !.alive = TRUE]]
      ELSE IF Ev.comp = "winfn" /\ AcceptResetFn
-       THEN /\ comp' = "winfn" /\ skip' = FALSE
+       THEN /\ comp' = "winfn" /\ skip' = FALSE /\ ws' = Ws0
             /\ cf' = [Cf0 EXCEPT !.kind = Ev.cfg.kind, !.fmt = Ev.cfg.fmt]
      ELSE IF Ev.comp = "windower" /\ AcceptResetWindower
        THEN /\ comp' = "windower" /\ skip' = FALSE
-            /\ cf' = [kind |-> Ev.cfg.kind, fmt |-> Ev.cfg.fmt, ch |-> Ev.cfg.ch, L |-> Ev.cfg.L, b |-> Ev.cfg.b,
-                      h |-> Ev.cfg.h, frames |-> Ev.cfg.frames, wv |-> Ev.o.wv, n |-> 0]
-     ELSE Reject /\ skip' = TRUE /\ comp' = "none" /\ cf' = Cf0
+            /\ cf' = [Cf0 EXCEPT !.kind = Ev.cfg.kind, !.fmt = Ev.cfg.fmt, !.ch = Ev.cfg.ch, !.L = Ev.cfg.L,
+                                 !.frames = Ev.cfg.frames]
+            /\ ws' = [Ws0 EXCEPT ![0] = [alive |-> TRUE, base |-> 0, len |-> Ev.cfg.L, b |-> Ev.cfg.b, h |-> Ev.cfg.h,
+                                         k |-> 0, wv |-> Ev.o.wv]]
+     ELSE Reject /\ skip' = TRUE /\ comp' = "none" /\ cf' = Cf0 /\ ws' = Ws0
 
+(* stand-alone window *)
 TTake == /\ comp = "window" /\ Ev.ev = "take"
-         /\ IF AcceptTake THEN k' = k + 1 /\ HeapNote /\ UNCHANGED << comp, cf, skip >> ELSE Bad
+         /\ IF AcceptTake THEN /\ Put(0, [ws[0] EXCEPT !.k = cf.n]) /\ cf' = [cf EXCEPT !.ref = Ev.r.v]
+                                /\ HeapNote /\ UNCHANGED << comp, skip >>
+            ELSE Bad
+TWNew == /\ comp = "window" /\ Ev.ev \in {"new", "rewind"}
+         /\ IF WSlot /\ Len(cf.ref) = cf.n /\ Ev.r.k = "unit" /\ (Ev.ev = "rewind" => ws[Ev.a.w].alive)
+              THEN Put(Ev.a.w, [Dead EXCEPT !.alive = TRUE]) /\ Same ELSE Bad
+TWClone == /\ comp = "window" /\ Ev.ev = "clone"
+           /\ IF WLive /\ Ev.a.to \in 0..2 /\ Ev.a.to # Ev.a.w /\ Ev.r.k = "unit"
+                THEN Put(Ev.a.to, ws[Ev.a.w]) /\ Same ELSE Bad
+TWNth == /\ comp = "window" /\ Ev.ev \in {"next", "nth"}
+         /\ LET j == IF Ev.ev = "next" THEN 0 ELSE Ev.a.k IN
+            IF AcceptWNth(j) THEN Put(Ev.a.w, [ws[Ev.a.w] EXCEPT !.k = @ + j + 1]) /\ HeapNote /\ Same ELSE Bad
+TWStep == /\ comp = "window" /\ Ev.ev \in {"step_by", "takeby"}
+          /\ LET s == IF Ev.ev = "takeby" THEN 1 ELSE Ev.a.s IN
+             IF AcceptWStep(s, Ev.a.m)
+               THEN Put(Ev.a.w, [ws[Ev.a.w] EXCEPT !.k = @ + (Ev.a.m - 1) * s + 1]) /\ HeapNote /\ Same ELSE Bad
+TWHint == /\ comp = "window" /\ Ev.ev = "size_hint"
+          /\ (IF AcceptWHint THEN HeapNote ELSE Reject)          \* reported; the execution continues
+          /\ UNCHANGED << comp, cf, ws, skip >>
+
+(* windower *)
 THint == /\ comp = "windower" /\ Ev.ev = "size_hint"
          /\ (IF AcceptHint THEN HeapNote ELSE Reject)            \* reported; the execution continues
-         /\ UNCHANGED << comp, cf, k, skip >>
-TNext == /\ comp = "windower" /\ Ev.ev = "next"
-         /\ IF AcceptNextChunk
-              THEN /\ k' = NthAfter(cf.L, cf.b, cf.h, k, 0)
-                   /\ HeapNote /\ UNCHANGED << comp, cf, skip >>
-              ELSE Bad
-TNth == /\ comp = "windower" /\ Ev.ev \in {"nth", "skip"}
-        /\ IF AcceptNthChunk(Ev.a.k)
-             THEN /\ k' = NthAfter(cf.L, cf.b, cf.h, k, Ev.a.k)
-                  /\ HeapNote /\ UNCHANGED << comp, cf, skip >>
-             ELSE Bad
-TStepBy == /\ comp = "windower" /\ Ev.ev = "step_by"
-           /\ IF AcceptStepBy
-                THEN /\ k' = StepAfter(cf.L, cf.b, cf.h, k, Ev.a.s, Ev.a.m)
-                     /\ HeapNote /\ UNCHANGED << comp, cf, skip >>
-                ELSE Bad
+         /\ UNCHANGED << comp, cf, ws, skip >>
+TNth == /\ comp = "windower" /\ Ev.ev \in {"next", "nth", "skip", "find"}
+        /\ LET j == IF Ev.ev = "next" THEN 0 ELSE Ev.a.k IN
+           IF AcceptNthChunk(j) THEN Put(Ev.a.w, VNthAfter(S, j)) /\ HeapNote /\ Same ELSE Bad
+TStepBy == /\ comp = "windower" /\ Ev.ev \in {"step_by", "take"}
+           /\ LET sp == IF Ev.ev = "take" THEN 1 ELSE Ev.a.s IN
+              IF AcceptStepBy(sp, Ev.a.m) THEN Put(Ev.a.w, VStepAfter(S, sp, Ev.a.m)) /\ HeapNote /\ Same ELSE Bad
+TSearch == /\ comp = "windower" /\ Ev.ev \in {"position", "any", "all"}
+           /\ IF (IF Ev.ev = "position" THEN AcceptPosition ELSE AcceptAnyAll)
+                THEN Put(Ev.a.w, VNthAfter(S, Ev.a.k)) /\ HeapNote /\ Same ELSE Bad
+TConsume == /\ comp = "windower" /\ Ev.ev \in {"count", "last", "fold", "for_each"}
+            /\ IF (CASE Ev.ev = "count" -> AcceptCount [] Ev.ev = "last" -> AcceptLast [] OTHER -> AcceptFold)
+                 THEN Kill(Ev.a.w) /\ HeapNote /\ Same ELSE Bad
+TClone == /\ comp = "windower" /\ Ev.ev = "clone"
+          /\ IF AcceptClone THEN Put(Ev.a.to, S) /\ Same ELSE Bad
+TSet == /\ comp = "windower" /\ Ev.ev \in {"set_bin", "set_hop", "set_frames"}
+        /\ CASE Ev.ev = "set_bin" ->
+                   IF AcceptSetBin THEN Put(Ev.a.w, [VSetBin(S, Ev.a.b) EXCEPT !.wv = Ev.o.wv]) /\ Same ELSE Bad
+             [] Ev.ev = "set_hop" ->
+                   IF AcceptSetHop THEN Put(Ev.a.w, VSetHop(S, Ev.a.h)) /\ Same ELSE Bad
+             [] OTHER ->
+                   IF AcceptSetFrames THEN Put(Ev.a.w, VSetFrames(S, Ev.a.off, Ev.a.len)) /\ Same ELSE Bad
 TEval == /\ comp = "winfn" /\ Ev.ev = "eval"
          /\ (IF AcceptEval THEN HeapNote ELSE Reject)            \* stateless: every bad evaluation is reported
-         /\ UNCHANGED << comp, cf, k, skip >>
-Known == \/ comp = "window" /\ Ev.ev = "take"
-         \/ comp = "windower" /\ Ev.ev \in {"size_hint", "next", "nth", "skip", "step_by"}
+         /\ UNCHANGED << comp, cf, ws, skip >>
+Known == \/ comp = "window" /\ Ev.ev \in {"take", "new", "rewind", "clone", "next", "nth", "step_by", "takeby", "size_hint"}
+         \/ comp = "windower" /\ Ev.ev \in {"size_hint", "next", "nth", "skip", "find", "step_by", "take", "position", "any",
+                                              "all", "count", "last", "fold", "for_each", "clone", "set_bin", "set_hop",
+                                              "set_frames"}
          \/ comp = "winfn" /\ Ev.ev = "eval"
 TUnknown == ~Known /\ Bad
 
 TOp == /\ Consume /\ Ev.ev # "reset" /\ ~skip
-       /\ (TTake \/ THint \/ TNext \/ TNth \/ TStepBy \/ TEval \/ TUnknown)
-TSkip == Consume /\ Ev.ev # "reset" /\ skip /\ UNCHANGED << comp, cf, k, skip >>
+       /\ (TTake \/ TWNew \/ TWClone \/ TWNth \/ TWStep \/ TWHint
+           \/ THint \/ TNth \/ TStepBy \/ TSearch \/ TConsume \/ TClone \/ TSet \/ TEval \/ TUnknown)
+TSkip == Consume /\ Ev.ev # "reset" /\ skip /\ UNCHANGED << comp, cf, ws, skip >>
 
-TraceInit == l = 1 /\ comp = "none" /\ cf = Cf0 /\ k = 0 /\ skip = TRUE
+TraceInit == l = 1 /\ comp = "none" /\ cf = Cf0 /\ ws = Ws0 /\ skip = TRUE
 TraceNext == TReset \/ TOp \/ TSkip
 TraceSpec == TraceInit /\ [][TraceNext]_vars
 
